@@ -34,6 +34,9 @@ type Case struct {
 	// dynamic types of the typed values that interfaces of the pre-filled value hold: the interface value
 	// {"keys":["dyn"],"u":k,"elems":[v]} holds the value v of the type Dyn[k] (see iface_test.go)
 	Dyn []*gen.TD `json:"dyn,omitempty"`
+	// objects of the pre-filled value that are stored at more than one place: the place To holds the very pointer /
+	// map / slice stored at From (see alias_test.go)
+	Alias []aliasLink `json:"alias,omitempty"`
 }
 
 func lastSeg(path string) string { return path[strings.LastIndex(path, ".")+1:] }
@@ -340,6 +343,8 @@ type call struct {
 	newTarget   func(twin bool) reflect.Value // pointer to a target in the state before the call
 	realT       reflect.Type
 	preText     func() string // the state of the target before the call, if Pre does not describe it
+	alias       []aliasInfo   // the objects of the pre-filled value that are stored at two places
+	aliasText   string        // ... described
 }
 
 // outcome of a call the oracle accepted.
@@ -359,8 +364,38 @@ func runCase(c Case, r *runlog.R) error {
 		r.Discard()
 		return nil
 	}
-	_, err := runCall(&call{T: c.T, Pre: c.Pre, Cfg: c.Cfg, VarExp: c.VarExp, Policy: c.Policy, Dyn: c.Dyn, reg: reg,
-		newTarget: c.newValue, realT: c.T.Type()}, r)
+	cl := &call{T: c.T, Pre: c.Pre, Cfg: c.Cfg, VarExp: c.VarExp, Policy: c.Policy, Dyn: c.Dyn, reg: reg,
+		newTarget: c.newValue, realT: c.T.Type()}
+	if len(c.Alias) > 0 {
+		// the links must fit the value and must not close a cycle (the unchanged library does not terminate on cyclic
+		// values; the generator draws neither)
+		infos, err := c.aliasInfos()
+		if err == nil {
+			for _, twin := range []bool{false, true} {
+				td := c.T
+				if twin {
+					td = twinOf(td)
+				}
+				p := td.New(c.Pre)
+				if len(c.Dyn) > 0 {
+					c.fill(td, p.Elem(), c.Pre, twin)
+				}
+				if err = applyAlias(p.Elem(), c.Alias); err == nil && cyclic(p.Elem()) {
+					err = fmt.Errorf("cyclic value")
+				}
+				if err != nil {
+					break
+				}
+			}
+		}
+		if err != nil {
+			r.Class("discarded: malformed alias links")
+			r.Discard()
+			return nil
+		}
+		cl.alias, cl.aliasText = infos, aliasText(&c)
+	}
+	_, err := runCall(cl, r)
 	return err
 }
 
@@ -435,7 +470,7 @@ func runCall(c *call, r recorder) (out outcome, _ error) {
 		} else {
 			pre = showV(c.newTarget(false).Elem())
 		}
-		return fmt.Sprintf("\n type    %v\n prefill %s\n config  %s (VarExp %v%s%s)", realT, pre, showTree(c.Cfg), c.VarExp, pol, c.extraText)
+		return fmt.Sprintf("\n type    %v\n prefill %s%s\n config  %s (VarExp %v%s%s)", realT, pre, c.aliasText, showTree(c.Cfg), c.VarExp, pol, c.extraText)
 	}
 
 	// R: what a validation-free Unpack produces
@@ -462,11 +497,44 @@ func runCall(c *call, r recorder) (out outcome, _ error) {
 		r.Discard()
 		return out, nil
 	}
+	// An object that is stored at two places and changed through one of them (the code merges settings in place into a
+	// struct or array behind a non-nil pointer, into a map - a nil map behind a pointer becomes an empty one -, and into
+	// such elements of a list; a map with InitDefaults is initialised in place even without a setting) has no single
+	// value for the other place: the code judges every place in the state the object has when its field comes up - the
+	// pre-filled one, or one that later settings overwrite again. R shows the final state only. If a shared object of
+	// such a kind has a setting at one of its places, the validators at and below the places of shared objects of
+	// such kinds are not decisive (either verdict), and a failure that names a path at or below such a place is
+	// accepted. Everywhere else, and for all other shared objects (pointers to primitives, regular expressions, lists
+	// of primitives: a setting replaces them at its own place only; objects none of whose places has a setting),
+	// every place is decided on its own.
+	var inFlux [][]string
+	if len(c.alias) > 0 {
+		changed := false
+		for _, ai := range c.alias {
+			changed = changed || (ai.mutable && (ai.initIn || w.posAt(ai.from).cfg != nil || w.posAt(ai.to).cfg != nil))
+		}
+		for _, ai := range c.alias {
+			if changed && ai.mutable {
+				inFlux = append(inFlux, ai.from, ai.to)
+			}
+		}
+	}
+	influx := func(path []string) bool {
+		for _, p := range inFlux {
+			if hasSegPrefix(path, p) {
+				return true
+			}
+		}
+		return false
+	}
 	var strict, soft []*eval
 	for i := range w.evals {
 		e := &w.evals[i]
 		switch {
 		case e.ok:
+		case !e.soft && influx(e.path):
+			e.soft = true
+			soft = append(soft, e)
 		case e.soft:
 			soft = append(soft, e)
 		default:
@@ -480,6 +548,15 @@ func runCall(c *call, r recorder) (out outcome, _ error) {
 		return out, fmt.Errorf("Unpack panicked: %v%s", uerr, describe())
 	}
 
+	// (a failure may be about a state of a shared object that later settings overwrote: see inFlux above)
+	var before []*eval
+	if uerr != nil {
+		for _, path := range inFlux {
+			p := w.posAt(path)
+			before = append(before, &eval{path: p.path, alts: p.alts, what: "a state of the shared object that settings overwrite", soft: true, below: true})
+		}
+	}
+
 	switch {
 	case uerr == nil:
 		if len(strict) > 0 {
@@ -489,14 +566,14 @@ func runCall(c *call, r recorder) (out outcome, _ error) {
 		w2 := &walker{root: c.Cfg, varexp: c.VarExp, dyn: reg}
 		w2.walk(c.T, real.Elem(), pos{cfg: c.Cfg})
 		for i := range w2.evals {
-			if e := &w2.evals[i]; !e.ok && !e.soft {
+			if e := &w2.evals[i]; !e.ok && !e.soft && !influx(e.path) {
 				return out, fmt.Errorf("Unpack returned nil but the returned value breaks %s%s\n result  %s", e, describe(), showV(real.Elem()))
 			}
 		}
 		if !same(real.Elem(), twin.Elem()) {
 			return out, fmt.Errorf("validators altered the result%s\n with validators    %s\n without validators %s", describe(), showV(real.Elem()), showV(twin.Elem()))
 		}
-	case len(strict) == 0 && len(soft) == 0:
+	case len(strict) == 0 && len(soft) == 0 && len(before) == 0:
 		return out, fmt.Errorf("every validator accepts the result of a validation-free Unpack, but Unpack failed: %v%s\n expected %s", uerr, describe(), showV(twin.Elem()))
 	default:
 		// the error has to name a rejected field or a field enclosing it. Under append/prepend/replace an element's
@@ -506,12 +583,16 @@ func runCall(c *call, r recorder) (out outcome, _ error) {
 		for _, d := range c.Dyn {
 			listPolicy = listPolicy || hasPolicyTag(d)
 		}
+		rejected := append(append(append([]*eval{}, strict...), soft...), before...)
 		named, ok := namedPath(uerr.Error())
 		match := false
 		if ok && named != "" {
-			for _, e := range append(append([]*eval{}, strict...), soft...) {
+			for _, e := range rejected {
 				for _, n := range e.names() {
 					if n == named || (listPolicy && blankIndices(n) == blankIndices(named)) {
+						match = true
+					}
+					if e.below && (strings.HasPrefix(named, n+".") || (listPolicy && strings.HasPrefix(blankIndices(named), blankIndices(n)+"."))) {
 						match = true
 					}
 				}
@@ -527,7 +608,7 @@ func runCall(c *call, r recorder) (out outcome, _ error) {
 			// the message names nothing ("accessing config"). There is nothing to name if the rejected validator belongs
 			// to the target itself (empty path), and no struct field encloses the elements of a collection target
 			rootLevel := c.T.Shape().Kind != "struct"
-			for _, e := range append(append([]*eval{}, strict...), soft...) {
+			for _, e := range rejected {
 				rootLevel = rootLevel || len(e.path) == 0
 			}
 			if rootLevel {
@@ -540,7 +621,7 @@ func runCall(c *call, r recorder) (out outcome, _ error) {
 			// missing from the path ("x" or "a.x" instead of "a.b.x"), or no
 			// path is quoted at all
 			d44 := !ok || named == ""
-			for _, e := range append(append([]*eval{}, strict...), soft...) {
+			for _, e := range rejected {
 				for _, full := range append([][]string{e.path}, e.alts...) {
 					for i := 2; i <= len(full); i++ {
 						if missesSegments(strings.Split(named, "."), full[:i]) {
@@ -555,7 +636,7 @@ func runCall(c *call, r recorder) (out outcome, _ error) {
 			}
 		}
 		if !match {
-			return out, fmt.Errorf("Unpack failed, but the error does not name a rejected field or a field enclosing it: %v\n rejected: %s%s", uerr, showEvals(append(append([]*eval{}, strict...), soft...)), describe())
+			return out, fmt.Errorf("Unpack failed, but the error does not name a rejected field or a field enclosing it: %v\n rejected: %s%s", uerr, showEvals(rejected), describe())
 		}
 	}
 
@@ -687,6 +768,43 @@ func runCall(c *call, r recorder) (out outcome, _ error) {
 	}
 	for _, e := range strict {
 		r.Class("rejecting: " + strings.SplitN(e.what, "=", 2)[0])
+	}
+	if len(c.alias) > 0 {
+		r.ClassIf(len(strict)+len(soft) == 0 && len(before) > 0, "aliased: failure accepted although the final state satisfies every validator (a shared object was changed in place)")
+		r.ClassIf(len(inFlux) > 0, "aliased: a shared object may be changed in place (its places are not decisive)")
+		r.ClassIf(len(inFlux) == 0, "aliased: no shared object is changed in place (every place decided on its own)")
+		oneOnly, oneOnlyAbsent := false, false
+		for _, ai := range c.alias {
+			r.Class("aliased: " + ai.kind)
+			r.Class("aliased: " + ai.where)
+			mFrom, mTo := w.posAt(ai.from).cfg != nil, w.posAt(ai.to).cfg != nil
+			switch {
+			case mFrom && mTo:
+				r.Class("aliased: both places have a setting")
+			case mFrom || mTo:
+				r.Class("aliased: one place has a setting, the other has none")
+			default:
+				r.Class("aliased: no place has a setting")
+			}
+			// the validators of one place reject the object, those of the other place accept it
+			rej := func(path []string) bool {
+				for _, e := range strict {
+					if hasSegPrefix(e.path, path) {
+						return true
+					}
+				}
+				return false
+			}
+			if rej(ai.from) != rej(ai.to) {
+				oneOnly = true
+				oneOnlyAbsent = oneOnlyAbsent || (!mFrom && !mTo)
+			}
+		}
+		r.ClassIf(oneOnly, "aliased: the validators of one place reject the object, those of the other place accept it")
+		r.ClassIf(oneOnlyAbsent, "aliased: the validators of one place reject the object, those of the other place accept it, no place has a setting")
+		if len(c.alias) > 1 {
+			r.Class("aliased: two or more links")
+		}
 	}
 	r.ClassIf(c.VarExp, "VarExp")
 	if c.VarExp {
